@@ -35,6 +35,8 @@ class C09(InvProp):
         if rng.chance(0.25):
             gen.add_level_controls(rng, scn, 1)
         e1.add_faults(rng, scn, p_pause=0.5, p_rescue=0.1)
+        if rng.chance(0.15):
+            scn['edits'] = e1.gen_edits(rng, scn)
         return scn
 
     def oracle(self, scn, out, c):
